@@ -97,6 +97,13 @@ mutant("C18-mkdtemp-leak", "src/rtflite/encode.py",
 mutant("C19-validator-first-row-only", "src/rtflite/attributes.py",
        "        for row in v:\n            for border in row:\n                if border not in BORDER_CODES:",
        "        for row in v[:1]:\n            for border in row:\n                if border not in BORDER_CODES:", ["C19"])
+# validation moved into assert statements: only visible when Python runs with -O (every fifth shard does)
+mutant("C19-validator-as-assert", "src/rtflite/attributes.py",
+       "                if border not in BORDER_CODES:\n                    field_name = info.field_name.capitalize()\n                    raise ValueError(\n                        f\"{field_name} with invalid border style: {border}\"\n                    )",
+       "                assert border in BORDER_CODES, f\"invalid border style: {border}\"", ["C19"])
+mutant("C13-contiguity-as-assert", "src/rtflite/services/grouping_service.py",
+       "                        if values[j] in seen_values:\n",
+       "                        assert values[j] not in seen_values, f\"not contiguous: {var}\"\n                        if False:\n", ["C13"])
 mutant("C20-mm-factor", "src/rtflite/strwidth.py", "(x / dpi) * 25.4", "(x / dpi) * 25.0", ["C20"])
 mutant("C20-dpi-ignored", "src/rtflite/strwidth.py", '"in": lambda x: x / dpi,', '"in": lambda x: x / 72.0,', ["C20"])
 mutant("C01-brace-dropped", "src/rtflite/row.py",
